@@ -122,6 +122,12 @@ def c01(ctx):
     import p_range
     ctx.add(p_range.jobs_within_range(fx))
     ctx.rep.extra["range_arithmetic"] = dict(decided=p_range.jobs_within_range.decided, undecided=p_range.jobs_within_range.notes)
+    import p_buf
+    ctx.add(p_buf.buffers_drained(fx, "A"))
+    # ... and together cover it (tiling: first at the start, adjacent, last at the end, at least one)
+    import p_tile
+    ctx.add(p_tile.jobs_tile_range(fx))
+    ctx.rep.extra["range_tiling"] = dict(decided=p_tile.jobs_tile_range.decided, undecided=p_tile.jobs_tile_range.notes)
 
 
 def c05(ctx):
@@ -139,6 +145,12 @@ def c05(ctx):
     ctx.add(obs)
     ctx.rep.extra["partial_functions"]["B"] = summb
     ctx.add(backend_totality_agreement(fx, summ, fb, summb))
+    # a buffer filled by a (possibly short) read is written out before the next read overwrites it
+    import p_buf
+    ctx.add(p_buf.buffers_drained(fx, "A"))
+    na = list(p_buf.buffers_drained.notes)
+    ctx.add(p_buf.buffers_drained(fb, "B"))
+    ctx.rep.extra["buffer_discipline_undecided"] = na + list(p_buf.buffers_drained.notes)
     ctx.add([o for o in r_err.run(fb, crates=("libfs",), cfgname="B")])
 
 
